@@ -8,6 +8,7 @@ package interp
 import (
 	"fmt"
 	"sort"
+	"strings"
 	"sync"
 )
 
@@ -20,6 +21,7 @@ type thread struct {
 	done    bool
 	blocked bool
 	waitOn  string
+	top     *frame // innermost interpreted frame (diagnostics only)
 }
 
 type vtimer struct {
@@ -250,7 +252,15 @@ func (s *scheduler) schedPoint(what string) {
 	next := s.runq[k-1]
 	s.runq = append(s.runq[:k-1], s.runq[k:]...)
 	s.runq = append(s.runq, me)
-	s.i.path.trace = append(s.i.path.trace, fmt.Sprintf("preempt T%d->T%d at %s", me.id, next.id, what))
+	where := ""
+	if me.top != nil {
+		st := targetStack(me.top)
+		if len(st) > 8 {
+			st = st[:8]
+		}
+		where = " in " + strings.Join(st, " <- ")
+	}
+	s.i.path.trace = append(s.i.path.trace, fmt.Sprintf("preempt T%d(%s)->T%d(%s) at %s%s", me.id, me.name, next.id, next.name, what, where))
 	s.switchTo(next)
 }
 
@@ -385,7 +395,6 @@ func (s *scheduler) unlock(p *value) {
 	for _, w := range ws {
 		s.wake(w)
 	}
-	s.schedPoint("Unlock")
 }
 
 type vrwmutex struct {
@@ -420,7 +429,6 @@ func (s *scheduler) rwUnlock(p *value) {
 	}
 	m.writer = false
 	s.rwWakeAll(m)
-	s.schedPoint("RWUnlock")
 }
 
 func (s *scheduler) rwRLock(p *value) {
@@ -442,7 +450,6 @@ func (s *scheduler) rwRUnlock(p *value) {
 	if m.readers == 0 {
 		s.rwWakeAll(m)
 	}
-	s.schedPoint("RUnlock")
 }
 
 func (s *scheduler) rwWakeAll(m *vrwmutex) {
@@ -494,7 +501,6 @@ func (s *scheduler) condSignal(p *value) {
 		w.signaled = true
 		s.wake(w.t)
 	}
-	s.schedPoint("Signal")
 }
 
 func (s *scheduler) condBroadcast(p *value) {
@@ -505,7 +511,6 @@ func (s *scheduler) condBroadcast(p *value) {
 		w.signaled = true
 		s.wake(w.t)
 	}
-	s.schedPoint("Broadcast")
 }
 
 type vwaitgroup struct {
@@ -535,7 +540,6 @@ func (s *scheduler) wgAdd(p *value, d int64) {
 			s.wake(t)
 		}
 	}
-	s.schedPoint("wg.Add")
 }
 
 func (s *scheduler) wgWait(p *value) {
@@ -687,6 +691,7 @@ func (s *scheduler) recv(ch *vchan) (value, bool) {
 }
 
 func (s *scheduler) closeChan(ch *vchan) {
+	s.schedPoint("chan close")
 	if ch == nil {
 		panic(targetPanic{"close of nil channel"})
 	}
@@ -709,7 +714,6 @@ func (s *scheduler) closeChan(ch *vchan) {
 		w.sel.closed = true
 		s.complete(w, nil, false)
 	}
-	s.schedPoint("chan close")
 }
 
 type selCase struct {
